@@ -3,6 +3,7 @@ package main
 import (
 	"fmt"
 	"go/types"
+	"sort"
 	"strings"
 
 	"golang.org/x/tools/go/ssa"
@@ -42,6 +43,38 @@ func c16(c *Check) {
 	c.FrozenFiltered("C11", "C16/conversion-all-or-nothing", func(fn string) bool {
 		return strings.HasSuffix(fn, "Keeper.ConvertCoin") || strings.HasSuffix(fn, "Keeper.convertCoinNativeCoin") || strings.HasSuffix(fn, "Keeper.convertCoinNativeERC20")
 	})
+	c.Rule("C16/conversion-path-does-not-abort", "the functions of the aggregate module that the ICS-20 hook runs (OnRecvPacket → ConvertCoin → convertCoinNative*) contain no source of a Go panic other than the audited ones: a panic there leaves the middleware and aborts a receive that the transfer application had accepted", 2)
+	{
+		hookRoot := c.F("x/aggregate/keeper.Keeper.OnRecvPacket")
+		reach := c.Reachable([]*ssa.Function{hookRoot}, "cha", func(f *ssa.Function) bool { return !strings.Contains(fnPkgPath(f), "/x/aggregate") })
+		audited := map[string]string{
+			"cosmos-sdk/types.NewCoin":          "amount and denomination come from a coin the transfer module has just minted / validated (non-negative, valid denom)",
+			"cosmos-sdk/types.NewCoins":         "single validated coin",
+			"cosmos-sdk/types.NewIntFromBigInt": "value read back from an sdk.Int",
+			"cosmos-sdk/types.(Coin).Add":       "both coins carry the denomination of the message coin",
+			"cosmos-sdk/types.(Coin).Sub":       "both coins carry the denomination of the message coin",
+			"iface.MustUnmarshal":               "decoding a pair that SetTokenPair marshalled into the module's own store",
+		}
+		var fs []*ssa.Function
+		for f := range reach {
+			if inScope(f) && strings.Contains(fnPkgPath(f), "/x/aggregate/keeper") && !c.P.Absorbed(f) {
+				fs = append(fs, f)
+			}
+		}
+		sort.Slice(fs, func(i, j int) bool { return funcName(fs[i]) < funcName(fs[j]) })
+		n := 0
+		for _, f := range fs {
+			for _, s := range panicSites(c, f) {
+				if s.Kind != "ext-may-panic" && s.Kind != "panic" && s.Kind != "must-call" && s.Kind != "div" {
+					continue // index / assertion idioms are C15's business
+				}
+				n++
+				why, ok := audited[s.What]
+				c.Req(ok, "C16/conversion-path-does-not-abort", fmt.Sprintf("%s|%s|%s", funcName(f), s.Kind, trunc(s.What)), s.Pos, "audited: "+why, "unaudited panic source ("+s.Kind+": "+trunc(s.What)+") on the conversion path of the ICS-20 hook")
+			}
+		}
+		c.Req(len(fs) >= 3, "C16/conversion-path-does-not-abort", "functions on the conversion path", hookRoot.Pos(), fmt.Sprint(len(fs), " function(s), ", n, " site(s)"), "conversion path not found")
+	}
 	c.Rule("C16/no-failure-reported-as-success", "on the failure edge of one error no function returns another error value that is provably nil at that point (a wrapped stale `err` instead of the error just tested): a failed step is never reported as success", 1)
 	noFailureAsSuccess(c, "C16/no-failure-reported-as-success", fnsInPackages(c, "/x/aggregate"))
 	c.Rule("C16/middleware-forwarding", "IBCMiddleware.OnRecvPacket calls the wrapped module with unmodified (ctx,packet,relayer), returns its ack when !Success(), otherwise returns the hook's value for that same ack; ibc.Module forwards every callback unchanged", 12)
